@@ -1492,13 +1492,18 @@ class BADS:
                 if yval_vec.size == 1:
                     yval_vec = np.vstack((yval_vec, self.yval))
                     if self.options["specify_target_noise"]:
-                        ysd_vec = np.vstack(
-                            (
-                                ysd_vec,
-                                self.function_logger.S[
-                                    self.function_logger.Xn
-                                ],
+                        # SD logged for the returned point (not the last logged row)
+                        u_idx = np.flatnonzero(
+                            np.all(
+                                self.function_logger.X[
+                                    : self.function_logger.Xn + 1
+                                ]
+                                == self.u,
+                                axis=1,
                             )
+                        )[-1]
+                        ysd_vec = np.vstack(
+                            (ysd_vec, self.function_logger.S[u_idx])
                         )
 
                 self.optim_state["yval_vec"] = np.copy(yval_vec)
